@@ -236,6 +236,15 @@ def _alloc(fill):
     return h
 
 
+def h_full(I, args, kw, st, n):
+    """np.full(shape, v): every element is v (dtype inferred from v unless dtype= is given - a narrowing dtype is not modelled)."""
+    v = args[1] if len(args) > 1 else kw.get("fill_value")
+    if v is None or to_x(v) is None: return Opaque("np.full fill value")
+    if kw.get("dtype") is not None or len(args) > 2: return Opaque("np.full(dtype=)")
+    if args and args[0] == (): return to_x(v)            # 0-d
+    return _alloc(to_x(v))(I, args[:1], {k_: v_ for k_, v_ in kw.items() if k_ == "shape"}, st, n)
+
+
 def _like(fill):
     def h(I, args, kw, st, n):
         a = args[0]
@@ -704,6 +713,7 @@ _reg("builtins.min numpy.minimum numpy.fmin", _minmax("min"))
 _reg("builtins.max numpy.maximum numpy.fmax", _minmax("max"))
 _reg("numpy.empty numba.cuda.device_array numba.cuda.local.array", _alloc(None))
 _reg("numpy.zeros", _alloc(X.const(0)))
+_reg("numpy.full", h_full)
 _reg("numpy.ones", _alloc(X.const(1)))
 _reg("numpy.zeros_like", _like(X.const(0)))
 _reg("numpy.ones_like", _like(X.const(1)))
